@@ -614,4 +614,45 @@ def r14_10(ctx):
     return out
 
 
-RULES = [r14_1, r14_2, r14_3, r14_4, r14_5, r14_6, r14_7, r14_8, r14_9, r14_10]
+def r14_11(ctx):
+    """abstract run (W) of Intersection.filter_distance on exact polynomial stand-in curves: a candidate (u, v) is kept
+    iff the point of the first curve at u and the point of the second at v are closer than the tolerance -- each curve at
+    its own parameter -- in the order given"""
+    from rules.C18 import _PolyCv
+    out = Outcome("R14.11", "Intersection.filter_distance keeps exactly the candidates (u, v) with |A(u) - B(v)| below the "
+                            "tolerance: each curve evaluated at its own parameter, the order of the candidates kept", floor=2)
+    fn = ctx.fn("curve.Intersection.filter_distance")
+    arc = [(Fr(0), Fr(0)), (Fr(2), Fr(4)), (Fr(4), Fr(0))]
+    a = _PolyCv.bezier(arc)
+    px, py = a.at(Fr(1, 4))
+    d = (Fr(1), Fr(-1, 2))
+    p0 = (px - d[0], py - d[1])
+    b = _PolyCv.bezier([p0, (p0[0] + 2 * d[0], p0[1] + 2 * d[1])])          # B(1/2) = A(1/4)
+
+    def dist(u, v):
+        (x1, y1), (x2, y2) = a.at(u), b.at(v)
+        return float((x1 - x2) ** 2 + (y1 - y2) ** 2) ** 0.5
+
+    def hook(rn, ev, call, name, recv, args, kwargs):
+        if name == "isinstance" and len(args) == 2 and isinstance(args[0], StandIn):
+            return True
+        return NotImplemented
+    cands = [(Fr(1, 2), Fr(1, 4)), (Fr(1, 4), Fr(1, 2)), (Fr(1, 4), Fr(1, 4)), (Fr(1, 2), Fr(1, 2)), (Fr(0), Fr(1)), (Fr(1), Fr(0)),
+             (Fr(1, 4) + Fr(1, 10**8), Fr(1, 2))]
+    for tol in (1e-6, 0.75):
+        want = [q for q in cands if dist(*q) < tol]
+        try:
+            got = list(Runner(ctx, set(), hook, asserts=True).call_fn(fn, [a, b, list(cands), tol]))
+        except (Undecided, Raised, TypeError) as ex:
+            out.undecided(fn.qname, f"tolerance {tol}: {ex}", where=fn.where())
+            continue
+        if [tuple(q) for q in got] == want:
+            out.ok(fn.qname, f"tolerance {tol}: {len(want)} of {len(cands)} candidates kept, in order", where=fn.where())
+        else:
+            out.bad(fn.qname, "the distance filter does not keep exactly the candidates whose two curve points are close",
+                    where=fn.where(), detail=f"arc A and a segment B with A(1/4) = B(1/2), tolerance {tol}: keeps "
+                                             f"{[(str(u), str(v)) for u, v in got]}, required {[(str(u), str(v)) for u, v in want]}")
+    return out
+
+
+RULES = [r14_1, r14_2, r14_3, r14_4, r14_5, r14_6, r14_7, r14_8, r14_9, r14_10, r14_11]
